@@ -263,8 +263,14 @@ pub fn check(world: &World, sc: &C10, sandbox: &str) -> Report {
         let _ = std::fs::remove_file(&path);
         let formulae: Vec<String> = sc.bindings.values().map(|f| f.render()).collect();
         let model = env.bn.to_string();
+        let ordered: BTreeMap<String, Gcv> = raws.iter().map(|(l, s)| (l.clone(), s.clone())).collect();
         let saved = isolated(sc.hash_seed ^ 0xA1, || {
-            build_result_archive(raws.clone(), &path, &model, formulae.clone()).map_err(|e| e.to_string())
+            // built first thing in the fresh thread: entry order is a function of the seed only
+            let mut m: HashMap<String, Gcv> = HashMap::new();
+            for (l, s) in &ordered {
+                m.insert(l.clone(), s.clone());
+            }
+            build_result_archive(m, &path, &model, formulae.clone()).map_err(|e| e.to_string())
         });
         if !matches!(saved, Outcome::Ok(())) {
             rep.skipped = Some(format!("fault-free save failed: {}", saved.describe()));
